@@ -242,7 +242,7 @@ theorem step_preserves (s : St) (st : Step) (h : BookInv s) (hg : guardFail s st
       | none => exact h
       | some w =>
         simp only [hp, hw] at hg ⊢
-        by_cases hc : (s.hasGroup g && ok) = true
+        by_cases hc : (w.isAvailable && s.hasGroup g && ok) = true
         · simp only [hc, if_true] at hg ⊢
           split at hg
           · rename_i hrun
